@@ -3,7 +3,8 @@
    with its cache threaded through, calc_omen_keyspace with the level / IP /
    length loops and the max_keyspace cut-off, pcfg_omen_prob), against
    theories/OmenSpec.v (what the Markov generator must emit per level).
-   Proofs: theories/OmenKeyspaceProofs.v. *)
+   Proofs: theories/OmenKeyspaceProofs.v; the translator tie at the end: theories/OmenRt.v,
+   gen/OmenKeyspace_gen.v, theories/OmenKeyspaceGenProofs.v. *)
 From Coq Require Import List Arith NArith ZArith Floats.
 From Pcfg Require Import OmenSpec OmenLevel OmenKeyspace OmenLevelProofs OmenKeyspaceProofs.
 From PcfgGen Require Import Consts_gen.
@@ -85,3 +86,88 @@ Proof. reflexivity. Qed.
 
 Theorem C18_source_ip_guard_is_ge : keyspace_ip_guard_strict = false.
 Proof. reflexivity. Qed.
+
+(* ---- second tie to the source: gen/OmenKeyspace_gen.v is the translation of the Python
+   text of _rec_calc_keyspace and calc_omen_keyspace (lib_trainer/omen/evaluate_password.py)
+   (harness/translate_omen_level.py, redone on every run).  The Python functions keep
+   their memo cache in nested dicts inside the trainer's grammar (kc : kcache, threaded
+   explicitly), the model in one association list; [krel kc c] says both hold the same
+   count for every (ip, length, level).  From related caches the translated functions
+   return the model's values and leave related caches: for every closed table
+   ([closedb]: elsewhere Python raises KeyError where the model counts nothing), every
+   fuel above the length argument / table, and for the model's parameters
+   ip_strict = false, len_le = false - the equalities no longer hold when the source
+   compares with `> 0` or `<=` again.  These come LAST: the Require fails when the
+   translation or its equality proofs no longer check. *)
+From Pcfg Require Import OmenRt OmenKeyspaceGenProofs.
+From PcfgGen Require Import OmenKeyspace_gen.
+
+Theorem C18_source_rec_calc_keyspace_is_model :
+  forall T, closedb T = true -> forall k, 1 <= k ->
+  forall fuel kc c lvl ip e, k <= fuel -> find_entry ip (tt_grammar T) = Some e -> krel kc c ->
+  exists kc',
+    py_rec_calc_keyspace fuel T kc (Z.of_nat lvl) (Z.of_nat k) ip = Ok (Z.of_N (fst (rec_ks T k c lvl ip)), kc') /\
+    krel kc' (snd (rec_ks T k c lvl ip)).
+Proof. exact gen_rec_calc_keyspace_eq. Qed.
+
+Theorem C18_source_calc_omen_keyspace_is_model :
+  forall T max_level maxks fuel kc c,
+  closedb T = true -> length (tt_ln T) < fuel -> krel kc c ->
+  exists kc',
+    py_calc_omen_keyspace fuel T kc (Z.of_nat max_level) (Z.of_N maxks) =
+      Ok (counter_of (ks_done (calc_keyspace T max_level maxks false false c)), kc') /\
+    krel kc' (ks_cache (calc_keyspace T max_level maxks false false c)).
+Proof. exact gen_calc_omen_keyspace_eq. Qed.
+
+(* a trainer object whose grammar has no 'keyspace_cache' yet is related to the empty cache *)
+Theorem C18_source_fresh_cache_related : krel [] [] /\ forall T, kreachable T [].
+Proof. exact (conj krel_nil kreachable_nil). Qed.
+
+(* C18_rec_keyspace_counts over the translated _rec_calc_keyspace *)
+Theorem C18_rec_keyspace_counts_translated :
+  forall T, wf_ttab T -> levels_le guesser_max_level T -> closedb T = true ->
+  forall kc, kreachable T kc -> forall fuel k lvl ip e, 1 <= k -> k <= fuel -> find_entry ip (tt_grammar T) = Some e ->
+  exists kc',
+    py_rec_calc_keyspace fuel T kc (Z.of_nat lvl) (Z.of_nat k) ip =
+      Ok (Z.of_nat (length (completions (gview T) k ip (Z.of_nat lvl))), kc') /\
+    kreachable T kc'.
+Proof. exact gen_rec_keyspace_counts. Qed.
+
+(* C18_keyspace over the translated calc_omen_keyspace: it returns a Counter in which every
+   listed level whose value did not trigger the cut-off holds the number of strings the
+   generator must emit at that level, which are pairwise distinct; listed levels lie in
+   1..max_level; the cache it leaves is reachable again (the statement applies to the
+   next call on the same trainer object) *)
+Theorem C18_keyspace_translated :
+  forall T, wf_ttab T -> levels_le guesser_max_level T -> closedb T = true ->
+  forall kc, kreachable T kc -> forall fuel max_level maxks, length (tt_ln T) < fuel ->
+  exists cnt kc',
+    py_calc_omen_keyspace fuel T kc (Z.of_nat max_level) (Z.of_N maxks) = Ok (cnt, kc') /\
+    kreachable T kc' /\
+    forall l v, In (l, v) cnt -> (v <= Z.of_N maxks)%Z ->
+      (1 <= l <= Z.of_nat max_level)%Z /\
+      v = Z.of_nat (length (level_strings (gview T) l)) /\ NoDup (level_strings (gview T) l).
+Proof. exact gen_keyspace_translated. Qed.
+
+(* as run_trainer calls it: fresh trainer object, default bounds *)
+Theorem C18_keyspace_translated_fresh :
+  forall T, wf_ttab T -> levels_le guesser_max_level T -> closedb T = true ->
+  forall fuel, length (tt_ln T) < fuel ->
+  exists cnt kc',
+    py_calc_omen_keyspace fuel T [] 18 10000000000 = Ok (cnt, kc') /\
+    forall l v, In (l, v) cnt -> (v <= 10000000000)%Z ->
+      v = Z.of_nat (length (level_strings (gview T) l)) /\ NoDup (level_strings (gview T) l).
+Proof. exact gen_keyspace_translated_fresh. Qed.
+
+Theorem C18_translated_hypotheses_satisfiable :
+  wf_ttab T_r9 /\ levels_le guesser_max_level T_r9 /\ closedb T_r9 = true /\
+  (exists kc', py_calc_omen_keyspace 5 T_r9 [] 18 10000000000 =
+     Ok ([(1, 1); (2, 0); (3, 0); (4, 0); (5, 0); (6, 0); (7, 0); (8, 0); (9, 0); (10, 2); (11, 1);
+          (12, 0); (13, 0); (14, 0); (15, 0); (16, 0); (17, 0); (18, 0)]%Z, kc')) /\
+  (exists kc', py_calc_omen_keyspace 5 T_r9 [] 18 0 = Ok ([(1, 1)]%Z, kc')) /\
+  fst (match py_rec_calc_keyspace 5 T_r9 [] 0 2 [98%N] with Ok r => r | Raise _ => (-1, [])%Z end) = 1%Z.
+Proof. exact gen_keyspace_example. Qed.
+
+Print Assumptions C18_source_rec_calc_keyspace_is_model.
+Print Assumptions C18_source_calc_omen_keyspace_is_model.
+Print Assumptions C18_keyspace_translated.
